@@ -126,6 +126,8 @@ def check_one(src: str, mode: str = "exec", variant: str = "shipped"):
         if g != r:
             for i, (x, y) in enumerate(itertools.zip_longest(g, r)):
                 if x != y:
+                    if x and y and x[:3] == y[:3] and x[0] == "FSTRING_MIDDLE" and "\n" in x[1] and not x[1].isascii():
+                        continue  # CPython 3.12.1 reports a UTF-8 byte column for the end of a multi-line FSTRING_MIDDLE
                     res = {"kind": "token-differs", "index": i, "got": x, "want": y}
                     break
     if not res:
@@ -150,7 +152,7 @@ PREFIXES = ["f", "F", "rf", "fr", "Rf", "fR", "RF"]
 QUOTES = ["'", '"', "'''", '"""']
 LITS = ["", "a", " b c ", "é", "#", "x=1", ":", "!", "(", "]"]
 LITS_KNOWN = ["{{", "}}", "a{{b}}c", "\\n", "\\\\", "\\x41", "\\N{DIGIT ONE}", "\\'"]
-FIELDS = ["{x}", "{ x }", "{x!r}", "{x!s}", "{x!a}", "{x:>10}", "{x:.2f}", "{x!r:^8}", "{x.y[0]}", "{f(a, b)}", "{a + b}", "{(lambda: 1)()}", "{a if b else c}", "{[i for i in z]}", "{ {1: 2}[1] }", "{x:}", "{x:%Y-%m}", "{x,}", "{*a, b}", "{x!r:}", "{yield_}", "{a.b!s:>{w}}"[:0] or "{a.b!s}", "{x:#x}", "{x:,}", "{x:08.3f}"]
+FIELDS = ["{yield}", "{yield x}", "{yield from it}", "{await z}", "{not x}", "{x or y}", "{-x}", "{x < y}", "{x[1:2]}", "{x}", "{ x }", "{x!r}", "{x!s}", "{x!a}", "{x:>10}", "{x:.2f}", "{x!r:^8}", "{x.y[0]}", "{f(a, b)}", "{a + b}", "{(lambda: 1)()}", "{a if b else c}", "{[i for i in z]}", "{ {1: 2}[1] }", "{x:}", "{x:%Y-%m}", "{x,}", "{*a, b}", "{x!r:}", "{yield_}", "{a.b!s:>{w}}"[:0] or "{a.b!s}", "{x:#x}", "{x:,}", "{x:08.3f}"]
 FIELDS_KNOWN = ["{x=}", "{x = }", "{x=!r}", "{x:{w}}", "{x:{w}.{p}}", "{x!r:>{w}}", "{x:=5}" if False else "{x:>{w}}"]
 
 
@@ -181,8 +183,8 @@ def build_inputs(tier):
                     f = "{f" + iq + "{y}" + r.choice(["", "z"]) + iq + "}"
                 parts.append(f)
         body = "".join(parts)
-        if len(q) == 3 and r.random() < 0.3:
-            body = body.replace(" ", "\n", 1)
+        if len(q) == 3 and r.random() < 0.4:
+            body = "\n".join(parts) if r.random() < 0.6 else body.replace(" ", "\n", 1)
         s = f"{p}{q}{body}{q}"
         # concatenations with neighbours
         k = r.random()
